@@ -263,6 +263,8 @@ class SubCheck:
 def host_modules(chk, ctx, pids):
     """Evaluate the rule modules of `pids` inside the host check (their rules are necessary conditions of the host property too)."""
     import importlib
+    if os.environ.get('DOSA_NO_HOSTING'):
+        return  # tools/automut.py: every rule module is evaluated once, on its own, in one process (`./check multi`)
     for pid in pids:
         mod = importlib.import_module(f'dosa.rules.{pid.lower()}')
         mod.run(ctx, host=chk)
